@@ -65,6 +65,35 @@ theorem coordsOf_noPanic (c : Codec) (ty : String) (j : Json) (r : R V) (h : coo
             | some o => cases o <;> rfl))
     | simp at h
 
+/-- THE CHECK COVERS THE DEREFERENCE: when no member is a nil pointer, `Geometry()` over the
+    members does not panic.  (With `hasNilMember ms = true` it does: `membersGeometry_nil_panics`.) -/
+theorem membersGeometry_noPanic (ms : List (Option DG)) (h : hasNilMember ms = false) :
+    (membersGeometry ms).isPanic = false := by
+  induction ms with
+  | nil => rfl
+  | cons m ms ih =>
+    cases m with
+    | none => simp [hasNilMember] at h
+    | some d =>
+      have := ih (by simpa [hasNilMember] using h)
+      simp only [membersGeometry, memberGeometry]
+      revert this
+      cases membersGeometry ms <;> simp [Res.isPanic]
+
+/-- … and without the check the dereference is reached: a nil member panics -/
+theorem membersGeometry_nil_panics (ms : List (Option DG)) (h : hasNilMember ms = true) :
+    (membersGeometry ms).isPanic = true := by
+  induction ms with
+  | nil => simp [hasNilMember] at h
+  | cons m ms ih =>
+    cases m with
+    | none => rfl
+    | some d =>
+      have := ih (by simpa [hasNilMember] using h)
+      simp only [membersGeometry, memberGeometry]
+      revert this
+      cases membersGeometry ms <;> simp [Res.isPanic]
+
 theorem finishGeometry_noPanic (c : Codec) (st : GSt) : (finishGeometry c st).isPanic = false := by
   unfold finishGeometry
   split
@@ -72,7 +101,14 @@ theorem finishGeometry_noPanic (c : Codec) (st : GSt) : (finishGeometry c st).is
   · split
     · cases st.geoms with
       | none => rfl
-      | some ds => simp only; split <;> rfl
+      | some ds =>
+        simp only
+        split
+        · rfl
+        · rename_i hn
+          have := membersGeometry_noPanic ds (by simpa using hn)
+          revert this
+          cases membersGeometry ds <;> simp [Res.isPanic]
     · cases st.coords with
       | none =>
         simp only
@@ -234,24 +270,45 @@ theorem featureFinish_noPanic (st : FSt) : (featureFinish st).isPanic = false :=
     · rfl
     · split
       · rfl
-      · split <;> rfl
+      · -- `doc.Geometry != nil` has been checked: the dereference finds a pointer
+        rename_i hg
+        cases hgeom : st.geom with
+        | none => simp [hgeom] at hg
+        | some d => simp only [derefGeometry]; split <;> rfl
 
-/-- **No feature decoder panics.** -/
+theorem featureDocPtr_noPanic (c : Codec) (j : Json) : (featureDocPtr c j).isPanic = false := by
+  cases j with
+  | obj ms => simpa [featureDocPtr, isPanic_map] using decodeFMembers_noPanic c ms {}
+  | _ => cases c <;> rfl
+
+/-- `bson.Unmarshal(data, &doc)` never leaves `doc` nil: `UnmarshalBSON` can do without the
+    `doc == nil` check that `UnmarshalJSON` needs -/
+theorem featureDocPtr_bson_ne_nil (j : Json) : featureDocPtr .bson j ≠ .ok none := by
+  cases j with
+  | obj ms => simp only [featureDocPtr]; cases decodeFMembers .bson ms {} <;> simp [Res.map]
+  | _ => simp [featureDocPtr]
+
+/-- **No feature decoder panics**: the `doc == nil` check of `UnmarshalJSON` (json), resp. the
+    impossibility of a nil `doc` (bson), stands before `doc.Type`. -/
 theorem feature_total' (c : Codec) (rawNull : Bool) (j : Json) : (featureOfDoc c rawNull j).isPanic = false := by
   unfold featureOfDoc
   split
   · rfl
-  · cases j with
-    | null => cases c <;> rfl
-    | obj ms =>
-      have := decodeFMembers_noPanic c ms {}
+  · have hp := featureDocPtr_noPanic c j
+    cases hd : featureDocPtr c j with
+    | err e => rfl
+    | panic s => rw [hd] at hp; cases hp
+    | ok p =>
       simp only
-      cases hd : decodeFMembers c ms {} with
-      | ok st => exact featureFinish_noPanic st
-      | err e => rfl
-      | panic s => rw [hd] at this; cases this
-    | arr l => cases c <;> rfl
-    | _ => rfl
+      cases p with
+      | some st => simpa [featureFinishPtr] using featureFinish_noPanic st
+      | none =>
+        cases c with
+        | json => simp [Res.isPanic]
+        | bson => exact absurd hd (featureDocPtr_bson_ne_nil j)
+
+/-- without the `doc == nil` check the dereference is reached -/
+theorem featureFinishPtr_nil_panics : (featureFinishPtr none).isPanic = true := rfl
 
 theorem feature_ptr_total' (j : Json) : (featurePtrOfDoc j).isPanic = false := by
   cases j with
